@@ -198,7 +198,7 @@ def corpus_cases():
             if i in (0, 11) or j in (0, 8):
                 xs.append(0.05 * i)
                 ys.append(0.2 * j)
-    yield {"part": "C", "kind": "lattice-outline-anisotropic", "x": xs, "y": ys, "opt": True}
+    yield {"part": "C", "kind": "lattice-outline", "x": xs, "y": ys, "opt": True}
     # the test-suite's circle
     phi = np.linspace(0, 1.8 * np.pi, num=10, endpoint=False)
     idx = [5, 2, 0, 6, 9, 4, 1, 8, 3, 7]
@@ -246,7 +246,7 @@ def gen_sorter_cases(rng, n, thorough):
         if rng.integers(0, 2) and kind != "lattice":
             p = rng.permutation(len(x))
             x, y = x[p], y[p]
-        opt = bool(rng.integers(0, 2)) and len(x) <= (150 if not thorough else 300)
+        opt = bool(rng.integers(0, 2)) and len(x) <= (150 if not thorough or rng.integers(0, 10) else 300)
         yield {"part": "C", "kind": kind, "x": [float(v) for v in x], "y": [float(v) for v in y], "opt": opt}
 
 
@@ -696,8 +696,13 @@ def hdc_phase1(ck, case):
             ck.diverge("ndimage.label-is-a-labelling", case, "label array is not a function onto 1..m on the mask")
     else:
         ck.count(f"{part}_no_ndimage_record")
+    # the model's gather is O(components x cells): for very large grids with very many components only mask and
+    # labels are compared
+    with_axes = int(np.prod(shape)) * max(1, rec.get("n_modes", n_comp)) <= 2e7
+    if not with_axes:
+        ck.count(f"{part}_gather_rows_skipped_large")
     return {"case": case, "impl": impl, "bnd": bnd, "sets": sets, "bad": bad, "have_rec": have_rec,
-            "line": boundary_line(shape, region, axes)}
+            "with_axes": with_axes, "line": boundary_line(shape, region, axes if with_axes else None)}
 
 
 def hdc_phase2(ck, ctx, answer):
@@ -705,7 +710,8 @@ def hdc_phase2(ck, ctx, answer):
     case, impl, bnd, sets, bad, have_rec = (ctx[k] for k in ("case", "impl", "bnd", "sets", "bad", "have_rec"))
     region, axes, rec = impl["region"], impl["axes"], impl["rec"]
     n_dim, part = region.ndim, case["part"]
-    ans = parse_boundary(answer, n_dim, True)
+    with_axes = ctx["with_axes"]
+    ans = parse_boundary(answer, n_dim, with_axes)
     if "err" in ans:
         ck.diverge("boundary-model", case, "model error " + ans["err"])
         return None
@@ -724,11 +730,15 @@ def hdc_phase2(ck, ctx, answer):
             d = f"number of components impl={m_impl} model={ans['m']}"
         else:
             ilabels = [int(v) for v in lab.ravel()[lin.ravel()]]
-            mlabels = label_list_from_sets(ans, axes, bnd)
+            mlabels = label_list_from_sets(ans, axes, bnd) if with_axes else ans["labels"]
             if canonical_partition(ilabels) != canonical_partition(mlabels):
                 d = "component partition differs"
             elif ilabels != mlabels:
                 d = "component numbering differs (same partition)"
+    if not with_axes:
+        if d is not None and not bad:
+            ck.diverge("hdc-boundary-gather", case, d)
+        return None
     if d is None and not bad:
         msets = ans["sets"]
         if len(sets) == 1 and n_dim == 2:
@@ -879,13 +889,22 @@ def main(ck):
         "NearestNeighbors": "leaf; k-NN lists enter the model as data",
         "optimal start": "numpy's pairwise summation vs the model's sequential sum: a different start is accepted only when the exact rational path costs tie within 1e-9",
     }
-    for case in corpus_cases():
-        dispatch(ck, case)
-    run_hdc_batch(ck, gen_region_cases(rng, 4000 if thorough else 400, thorough))
-    run_hdc_batch(ck, gen_hdc_cases(rng, 500 if thorough else 60, thorough), chunk=10)
-    run_hdc_batch(ck, gen_default_cases(rng, 10 if thorough else 2), chunk=10)
-    run_sorter_cases(ck, gen_sorter_cases(rng, 3000 if thorough else 250, thorough))
-    process_label_only(ck, rng, 2000 if thorough else 200)
+    import time
+
+    walls = {}
+
+    def timed(name, f):
+        t = time.time()
+        f()
+        walls[name] = round(time.time() - t, 1)
+
+    timed("corpus", lambda: [dispatch(ck, case) for case in corpus_cases()])
+    timed("A", lambda: run_hdc_batch(ck, gen_region_cases(rng, 2500 if thorough else 400, thorough)))
+    timed("B", lambda: run_hdc_batch(ck, gen_hdc_cases(rng, 400 if thorough else 60, thorough), chunk=10))
+    timed("B-default", lambda: run_hdc_batch(ck, gen_default_cases(rng, 8 if thorough else 2), chunk=10))
+    timed("C", lambda: run_sorter_cases(ck, gen_sorter_cases(rng, 2000 if thorough else 250, thorough)))
+    timed("L", lambda: process_label_only(ck, rng, 2000 if thorough else 200))
+    ck.extra["part_wall_s"] = walls
 
 
 def replay(ck, payload):
